@@ -149,6 +149,11 @@ def follow_value(body, l, depth=0, seen=None):
                 if isinstance(k, tuple) and k[0] == "val":
                     if names and k[1] in names:
                         res[names[k[1]]] = v
+                    elif names and k[1] == "otherwise":
+                        listed = {kk[1] for kk in sub if isinstance(kk, tuple) and kk[0] == "val" and kk[1] != "otherwise"}
+                        missing = [n for i, n in names.items() if i not in listed]
+                        if len(missing) == 1 and body.blocks[v[1]]["t"]["k"] != "unreachable":
+                            res.setdefault(missing[0], v)
                     else:
                         res[("variant", k[1])] = v
         elif r[0] == "un" and r[1] == "Not":
@@ -498,3 +503,167 @@ def variant_edges(body, ty_pred, variant_index, place_pred=None):
 
 def dominated_by_any(body, edges, site_bb):
     return any(body.edge_dominates(a, b, site_bb) for a, b in edges)
+
+
+def ip_trace(facts, body, op, scope, depth=2, **kw):
+    """Provenance of `op` in `body`, with parameters of helper functions mapped back to the operand
+    passed at their unique call site inside `scope` (a list of bodies). Returns [(body, Origin)]:
+    each leaf together with the body in which it is expressed."""
+    out = []
+    for o in trace(body, op, **kw):
+        mapped = False
+        if o.kind == "arg" and depth > 0 and body.kind in ("fn", "assoc_fn"):
+            idx = o.data[0]
+            sites = []
+            for cb in scope:
+                for bi, t in cb.calls():
+                    if body.path in mir.callee_paths(t) and len(t["a"]) >= idx:
+                        sites.append((cb, t))
+            if len(sites) == 1:
+                cb, t = sites[0]
+                a = t["a"][idx - 1]
+                if a[0] != "const":
+                    sub = ip_trace(facts, cb, a, scope, depth - 1, **kw)
+                    # re-apply the field projections seen inside the helper
+                    for sb, so in sub:
+                        so2 = mir.Origin(so.kind, so.data, tuple(so.projs) + tuple(o.projs), so.site)
+                        out.append((sb, so2))
+                    mapped = True
+        if not mapped:
+            out.append((body, o))
+    return out
+
+
+def truth_edges(body, bool_local, want=True):
+    """edges on which the bool held in `bool_local` is known to be `want`: the matching edge of a
+    switch on it (or on a copy), and - through `matches!`/`if let ... if guard` temporaries - the
+    true edge of a switch on another bool local all of whose `true` assignments are dominated by
+    such an edge."""
+    direct = []
+    srcs = {bool_local}
+    changed = True
+    while changed:
+        changed = False
+        for bi, si, s in body.statements():
+            if s["k"] == "assign" and not s["p"]["p"] and s["p"]["l"] not in srcs and s["r"][0] == "use" and s["r"][1][0] in ("copy", "move") and not s["r"][1][1]["p"] and s["r"][1][1]["l"] in srcs:
+                srcs.add(s["p"]["l"])
+                changed = True
+    for bi, blk in enumerate(body.blocks):
+        tt = blk["t"]
+        if tt["k"] == "switch" and tt["d"][0] in ("copy", "move") and not tt["d"][1]["p"] and tt["d"][1]["l"] in srcs:
+            zero = dict(tt["v"]).get(0)
+            if want:
+                direct.append((bi, tt["o"]) if zero is not None else (bi, dict(tt["v"]).get(1, tt["o"])))
+            elif zero is not None:
+                direct.append((bi, zero))
+            else:
+                direct.append((bi, tt["o"]))
+    edges = list(direct)
+    if want:
+        for bi, blk in enumerate(body.blocks):
+            tt = blk["t"]
+            if tt["k"] != "switch" or tt["d"][0] not in ("copy", "move") or tt["d"][1]["p"]:
+                continue
+            m = tt["d"][1]["l"]
+            if m in srcs or body.locals[m]["ty"] != "bool":
+                continue
+            msrc = {m}
+            for d in body.defs().get(m, []):
+                if d[2] == "assign" and d[3]["r"][0] == "use" and d[3]["r"][1][0] in ("copy", "move") and not d[3]["r"][1][1]["p"]:
+                    msrc.add(d[3]["r"][1][1]["l"])
+            trues = []
+            ok = True
+            for src in msrc:
+                for d in body.defs().get(src, []):
+                    if d[2] != "assign":
+                        ok = False
+                        continue
+                    r = d[3]["r"]
+                    if r[0] == "use" and r[1][0] == "const":
+                        if r[1][1].get("val") == 1:
+                            trues.append(d[0])
+                    elif r[0] == "use" and r[1][0] in ("copy", "move") and not r[1][1]["p"] and (r[1][1]["l"] in msrc or r[1][1]["l"] in srcs):
+                        pass
+                    else:
+                        ok = False
+            if ok and trues and all(any(body.edge_dominates(a, b2, tb) for a, b2 in direct) for tb in trues):
+                edges.append((bi, tt["o"]))
+    return edges
+
+
+def _expand_aggs(body, origins, depth=3):
+    out = []
+    for o in origins:
+        if o.kind == "agg" and o.data[0][0] in ("tuple", "adt", "array") and depth > 0:
+            ops = [x for x in o.data[1] if x[0] != "const"]
+            if not ops:
+                out.append(o)
+            for x in ops:
+                out += _expand_aggs(body, trace(body, x), depth - 1)
+        else:
+            out.append(o)
+    return out
+
+
+def lift_origins(facts, body, origins, top, depth=4):
+    """Re-express provenance leaves found inside a closure in terms of the enclosing body `top`:
+    captured variables are resolved through the closure aggregate, closure parameters through the
+    receiver of the adaptor call (`opt.is_some_and(closure)`, `iter.map(closure)`, ...) the closure
+    is passed to. Returns a list of Origins expressed in `top` (or unresolved leaves as they are)."""
+    out = []
+    for o in origins:
+        if body is top or depth <= 0:
+            out.append(o)
+            continue
+        if o.kind == "upvar":
+            idx = [p[1] for p in o.projs if p[0] == "field"]
+            up = mir.upvar_origins(facts, body, idx[0]) if idx else None
+            if up:
+                pb, porigs = up
+                out += lift_origins(facts, pb, _expand_aggs(pb, porigs), top, depth - 1)
+                continue
+        if o.kind == "arg" and o.data[0] >= 2:
+            site = mir.closure_site(facts, body)
+            if site:
+                pb, pbi, psi, ps = site
+                cl_local = ps["p"]["l"]
+                hit = False
+                for qbi, qt in pb.calls():
+                    if any(a[0] in ("copy", "move") and not a[1]["p"] and a[1]["l"] == cl_local for a in qt["a"][1:]) and qt["a"]:
+                        hit = True
+                        out += lift_origins(facts, pb, _expand_aggs(pb, trace(pb, qt["a"][0])), top, depth - 1)
+                if hit:
+                    continue
+        out.append(o)
+    return out
+
+
+def truth_edges_final(body, bool_local, want=True):
+    """like truth_edges, but a direct edge that only feeds a `matches!`-style temporary (it dominates
+    one of the temporary's `true` assignments) is replaced by the edge of the final test on that
+    temporary: path-insensitive reachability from the direct edge would otherwise include both arms
+    of the final switch"""
+    es = truth_edges(body, bool_local, want)
+    if len(es) <= 1:
+        return es
+    final = []
+    for e in es:
+        feeds = False
+        for e2 in es:
+            if e2 is e:
+                continue
+            m = body.blocks[e2[0]]["t"]["d"]
+            if m[0] not in ("copy", "move"):
+                continue
+            msrc = {m[1]["l"]}
+            for d in body.defs().get(m[1]["l"], []):
+                if d[2] == "assign" and d[3]["r"][0] == "use" and d[3]["r"][1][0] in ("copy", "move") and not d[3]["r"][1][1]["p"]:
+                    msrc.add(d[3]["r"][1][1]["l"])
+            for src in msrc:
+                for d in body.defs().get(src, []):
+                    if d[2] == "assign" and d[3]["r"][0] == "use" and d[3]["r"][1][0] == "const" and d[3]["r"][1][1].get("val") == 1:
+                        if body.edge_dominates(e[0], e[1], d[0]):
+                            feeds = True
+        if not feeds:
+            final.append(e)
+    return final or es
